@@ -132,7 +132,12 @@ impl Handler for H14 {
             d.result_metadata_id = if self.t.ext { Some(metadata_id(v)) } else { None };
             Some(d)
         } else if query == INS {
-            let mut d = StatementDef::new(query, &ins_id());
+            // (an id change on a node hits this statement as well: batches meet it through their first statement)
+            let mut id = ins_id();
+            if self.t.id_changed.lock().unwrap().get(node.idx).copied().unwrap_or(false) {
+                id[0] ^= 0xff;
+            }
+            let mut d = StatementDef::new(query, &id);
             d.bind = vec![ColSpec::new("ks", "t", "pk", ColType::BigInt)];
             d.pk_indexes = vec![0];
             Some(d)
